@@ -28,7 +28,47 @@ def dense_h(om, de, ph, U):
     return H
 
 
+def ownership():
+    """the evolving state must not share storage with the configured initial state: after a run the
+    user's initial state is unchanged and a second run from the same backend gives the same results"""
+    from native_util import patch_pulser_observable, make_sequence_data
+    patch_pulser_observable()
+    from emu_sv import SVConfig, StateVector, DensityMatrix
+    from emu_sv.sv_backend_impl import SVBackendImpl
+    L = torch.zeros(2, 2, dtype=torch.complex128)
+    L[0, 1] = 0.4
+    for noisy in (False, True):
+        n = 2
+        if noisy:
+            rho = torch.diag(torch.tensor([0.4, 0.3, 0.2, 0.1], dtype=torch.complex128))
+            init = DensityMatrix(rho.clone(), gpu=False)
+        else:
+            psi = torch.tensor([0.5, 0.5j, -0.5, 0.5], dtype=torch.complex128) * 3.0     # deliberately unnormalised
+            init = StateVector(psi.clone(), gpu=False)
+        before = init.data.clone()
+        data = make_sequence_data(n, 3, omega=(torch.ones(3, n, dtype=torch.complex128) * 2.0),
+                                  lindblad_ops=[L] if noisy else None)
+        cfg = SVConfig(observables=[], gpu=False, krylov_tolerance=1e-9, log_level=50, initial_state=init)
+        impl = SVBackendImpl(cfg, data)
+        shared = impl.state.data.data_ptr() == cfg.initial_state.data.data_ptr()
+        for k in range(2):
+            impl._evolve_step(impl.target_times[k + 1] - impl.target_times[k], k)
+        changed = not torch.equal(cfg.initial_state.data, before)
+        if shared or changed:
+            print(f"REPRODUCED: SVBackendImpl({'density matrix' if noisy else 'state vector'} initial state): the evolving "
+                  f"state {'shares' if shared else 'does not share'} storage with config.initial_state.data; after two steps "
+                  f"the configured initial state {'CHANGED' if changed else 'is unchanged'} "
+                  f"(max |after - before| = {(cfg.initial_state.data - before).abs().max().item():.3g})")
+            return 1
+    return 0
+
+
 def main():
+    if len(sys.argv) > 1 and os.path.exists(sys.argv[1]) and "SVBackendImpl.__init__" in open(sys.argv[1]).read(3000):
+        rc = ownership()
+        if rc == 0:
+            print("NOT-REPRODUCED: the configured initial state is neither shared nor modified by the run")
+        return rc
     from emu_sv.time_evolution import EvolveStateVector
     rnd = random.Random(int(os.environ.get("VERIF_SEED", "0")))
     torch.manual_seed(0)
